@@ -19,11 +19,11 @@ import (
 )
 
 const (
-	c05Source = iota // definite nil source at site a
-	c05Sink          // definite non-nil requirement at site a
-	c05Edge          // flow a -> b
-	c05AnnNil        // explicit nilable annotation on a
-	c05AnnNonnil     // explicit nonnil annotation on a
+	c05Source    = iota // definite nil source at site a
+	c05Sink             // definite non-nil requirement at site a
+	c05Edge             // flow a -> b
+	c05AnnNil           // explicit nilable annotation on a
+	c05AnnNonnil        // explicit nonnil annotation on a
 	c05Kinds
 )
 
